@@ -380,8 +380,8 @@ pub fn main(args: &[String]) {
                         (0, Some(j)) => (format!("f{j} x + {k}"), vec![j]),
                         (1, Some(j)) => (format!("if x <= 0 then {k} else f{i} (x - 1) + f{j} 0"), vec![j]),
                         (2, Some(j)) if with_pred => (format!("if x <= 0 then 0 else (if p 0 then f{i} (x - 1) + f{j} 1 else {k})"), vec![j]),
-                        (3, Some(j)) => (format!("(a = x + {k}; f{j} a)"), vec![j]),
-                        (4, Some(j)) => (format!("(a = x + {k}; u = 0; f{j} a + u)"), vec![j]),
+                        (3, Some(j)) => (format!("(a : int = x + {k}; f{j} a)"), vec![j]),
+                        (4, Some(j)) => (format!("(a : int = x + {k}; u : int = 0; f{j} a + u)"), vec![j]),
                         (5, _) if nc > 0 => { let m = r.gen_range(0..nc); deps[i].insert(m); (format!("x * {k} + c{m}"), vec![]) }
                         (6, Some(j)) => (format!("if x <= 0 then f{j} x else f{i} (x - 1)"), vec![j]),
                         _ => (format!("x * {k} + {}", r.gen_range(0..4)), vec![]),
@@ -417,10 +417,14 @@ pub fn main(args: &[String]) {
                 }
                 let top = r.gen_range(0..nf);
                 let arg = r.gen_range(0..4);
-                let main = match r.gen_range(0..4) {
+                let main = match r.gen_range(0..7) {
                     0 => format!("f{top} {arg}"),
                     1 => format!("((q : int) => f{top} q) {arg}"),
-                    2 => format!("((q : int) => (w = q + 1; f{top} w)) {arg}"),
+                    2 => format!("((q : int) => (w : int = q + 1; f{top} w)) {arg}"),
+                    // results that stay under further binders (hosts for checking under a context)
+                    4 => format!("(q : int) => f{top} q"),
+                    5 => format!("(q : int) => (w : int = q + 1; f{top} w)"),
+                    6 => format!("(q : int) => (r : int) => f{top} q + f{} r", (top + 1) % nf),
                     _ if nc > 0 => format!("f{top} {arg} + c{}", nc - 1),
                     _ => format!("f{top} (f{top} {arg})"),
                 };
